@@ -315,10 +315,14 @@ def check_property(pid, tier="quick", seed=0, out=sys.stdout):
         print(f"  failed obligation {ob.oid} ({ob.note})", file=out)
         print(f"VIOLATION property={pid} replay={fname}{tail}", file=out)
     if os.environ.get("PYVC_WRITE_LEDGER"):
-        ledger.setdefault(pid, {})
-        ledger[pid] = {con.qualname: {"obligations": len(r.obligations), "all_discharged": bool(r.obligations) and all(o.result == "unsat" for o in r.obligations) and not r.undecided}
-                       for con, r in results}
-        json.dump(ledger, open(lp, "w"), indent=1, sort_keys=True)
+        import fcntl
+
+        with open(lp + ".lock", "w") as lock:  # checks run in parallel: re-read under a lock so that no entry is lost
+            fcntl.flock(lock, fcntl.LOCK_EX)
+            ledger = json.load(open(lp)) if os.path.exists(lp) else {}
+            ledger[pid] = {con.qualname: {"obligations": len(r.obligations), "all_discharged": bool(r.obligations) and all(o.result == "unsat" for o in r.obligations) and not r.undecided}
+                           for con, r in results}
+            json.dump(ledger, open(lp, "w"), indent=1, sort_keys=True)
     if violations:
         return 1
     if crashes:
